@@ -52,11 +52,10 @@ func verifC05AddVsSetLimit(kind int) {
 //verif:harness property=C05 theory=bv tier=quick maxpaths=30000 clock=frozen
 func VerifC05_Pred_AddPartitionVsUpdate() { verifC05AddVsSetLimit(0) }
 
-// VerifC05_Lookup_AddPartitionVsUpdate: NOT registered (tier=off).  The lookup strategy keeps its
-// partitions in a Go map; the engine explores each thread on the map contents at the fork and does
-// not model map contents as state shared between threads, so it refuses (INCONCLUSIVE, unsupported)
-// a harness in which one thread inserts into a map another thread iterates.  Kept as documentation
-// of the boundary; the predicate strategy (a slice) is decided above.
+// VerifC05_Lookup_AddPartitionVsUpdate: the same for the lookup strategy, whose partitions live in a
+// Go map: the entries of a map that exists at the fork are shared cells {present, value} in the
+// event-order mode, so the insert by one thread and the iteration by the other communicate through
+// the read-from constraints like any other shared memory.
 //
-//verif:harness property=C05 theory=bv tier=off maxpaths=30000 clock=frozen
+//verif:harness property=C05 theory=bv tier=quick maxpaths=30000 clock=frozen
 func VerifC05_Lookup_AddPartitionVsUpdate() { verifC05AddVsSetLimit(1) }
